@@ -41,9 +41,13 @@ pub enum Front {
     RawMixedBulk,
     MapMixedBulk,
     SetMixedBulk,
+    // ---- the memory() constructors and into_fst / into_map / into_set
+    RawMemoryIntoFst,
+    MapMemoryIntoMap,
+    SetMemoryIntoSet,
 }
 
-pub const ALL_FRONTS: [Front; 23] = [
+pub const ALL_FRONTS: [Front; 26] = [
     Front::RawInsert,
     Front::RawAdd,
     Front::RawExtendIter,
@@ -67,6 +71,9 @@ pub const ALL_FRONTS: [Front; 23] = [
     Front::RawMixedBulk,
     Front::MapMixedBulk,
     Front::SetMixedBulk,
+    Front::RawMemoryIntoFst,
+    Front::MapMemoryIntoMap,
+    Front::SetMemoryIntoSet,
 ];
 
 impl Front {
@@ -83,6 +90,7 @@ impl Front {
                 | Front::FstFromIterSet
                 | Front::SetInsertNoisy
                 | Front::SetMixedBulk
+                | Front::SetMemoryIntoSet
         )
     }
     /// Front ends on which the cache geometry can be chosen (hook H1).
@@ -346,6 +354,36 @@ fn build_inner(front: Front, geom: Geom, kvs: &[Kv]) -> Result<Vec<u8>, String> 
                 return Err(format!("{} {}", USAGE_SKIP, what));
             }
             Ok(bytes)
+        }
+        Front::RawMemoryIntoFst => {
+            let mut b = raw::Builder::memory();
+            for (k, v) in kvs {
+                e2s(b.insert(k, *v))?;
+                if b.bytes_written() != b.get_ref().len() as u64 {
+                    return Err(format!("bytes_written() = {} but the Vec holds {} bytes", b.bytes_written(), b.get_ref().len()));
+                }
+            }
+            Ok(b.into_fst().into_inner())
+        }
+        Front::MapMemoryIntoMap => {
+            let mut b = MapBuilder::memory();
+            for (k, v) in kvs {
+                e2s(b.insert(k, *v))?;
+                if b.bytes_written() != b.get_ref().len() as u64 {
+                    return Err(format!("MapBuilder::bytes_written() = {} but the Vec holds {} bytes", b.bytes_written(), b.get_ref().len()));
+                }
+            }
+            Ok(b.into_map().into_fst().into_inner())
+        }
+        Front::SetMemoryIntoSet => {
+            let mut b = SetBuilder::memory();
+            for (k, _) in kvs {
+                e2s(b.insert(k))?;
+                if b.bytes_written() != b.get_ref().len() as u64 {
+                    return Err(format!("SetBuilder::bytes_written() = {} but the Vec holds {} bytes", b.bytes_written(), b.get_ref().len()));
+                }
+            }
+            Ok(b.into_set().into_fst().into_inner())
         }
         Front::RawMixedBulk => {
             let (n1, n2) = (kvs.len() / 3, 2 * kvs.len() / 3);
